@@ -49,6 +49,45 @@ def turchin_key(lex, k, model):
     return ''.join(c for c in cls if c not in model.vowels)[:2]
 
 
+def turchin_tie(chk):
+    """pairwise.turchin == Lean Turchin.dist on the class strings (theorems C06_turchin_single / _complete: at every threshold in [0, 1) the
+    clusters are the classes of equal keys)"""
+    from lingpy import rc
+    from lingpy.align.pairwise import turchin
+    from lingpy.sequence.sound_classes import tokens2class, ipa2tokens
+    from props.msa_common import WORDS
+    rng = chk.rng
+    drv = common.Driver()
+    bad = []
+    n = chk.n(600, 20000)
+    try:
+        for it in range(n):
+            mname = rng.choice(['dolgo', 'dolgo', 'sca', 'asjp'])
+            model = rc(mname)
+            wa, wb = rng.choice(WORDS), rng.choice(WORDS)
+            if rng.random() < 0.3:
+                wb = wa[:rng.randrange(1, len(wa) + 1)] + rng.choice(WORDS)[-2:]
+            try:
+                ta, tb = ipa2tokens(wa), ipa2tokens(wb)
+                ca, cb = tokens2class(ta, model), tokens2class(tb, model)
+                real = turchin(list(ta), list(tb), model=model)
+            except Exception:  # noqa
+                continue
+            o = drv.ask('turchin|%s|%d|%s|%s' % (' '.join(str(ord(v)) for v in model.vowels), ord('H'), ' '.join(str(ord(c)) for c in ca),
+                                                ' '.join(str(ord(c)) for c in cb)))
+            chk.evaluations += 1
+            if not o.startswith('T %d ' % real):
+                bad.append((wa, wb, mname, real, o))
+    finally:
+        drv.close()
+    chk.obligation('correspondence:pairwise.turchin == Lean Turchin.dist on the sound-class strings (theorems C06_turchin_single / C06_turchin_complete)',
+                   'correspondence', not bad, 'pairs=%d mismatches=%d %s' % (n, len(bad), str(bad[0])[:200] if bad else ''))
+    if bad:
+        chk.violation('the consonant-class distance differs from the model for %r / %r (%s): %r vs %s; no word list with other cognate sets than the key classes was found'
+                      % (bad[0][0], bad[0][1], bad[0][2], bad[0][3], bad[0][4]),
+                      {'kind': 'turchin-model', 'detail': str(bad[0]), 'broken': 'correspondence:pairwise.turchin'}, found_input=False)
+
+
 def run_c06(chk):
     from lingpy import rc
     rng = chk.rng
